@@ -144,9 +144,10 @@ def rule_one_consumer(m, rep, rid='R2', parts=('receiver', 'callers')):
            'run() is called only from the closure given to thread::spawn' if okr else
            'run() is called from %s' % [b.short() for b, _ in run_callers])
     sp_callers = sorted(set(b.path for b in cad.all_bodies for bi, t in b.calls() if t.get('resolved') == m.spawn.path))
-    exp = sorted([m.build.path, m.sentinel_drop.path])
-    rep.ob(rid, 'spawn-sites', sp_callers == exp, m.spawn.where(),
-           'worker threads are spawned by build() and by the sentinel only' if sp_callers == exp else
+    okw = bool(sp_callers) and m.sentinel_drop.path in sp_callers and \
+        all(p_ == m.sentinel_drop.path or p_ in m.build_region for p_ in sp_callers) and any(p_ in m.build_region for p_ in sp_callers)
+    rep.ob(rid, 'spawn-sites', okw, m.spawn.where(),
+           'worker threads are spawned by build() and by the sentinel only' if okw else
            'worker threads are spawned from %s' % sp_callers)
     cb = count_events(m.build, lambda x: m.build.term(x)['k'] == 'call' and m.build.term(x).get('resolved') == m.spawn.path)
     rep.ob(rid, 'build-spawns-once', cb == {1}, m.build.where(), 'build() spawns exactly one worker thread (counts %s)' % sorted(cb))
@@ -334,7 +335,7 @@ def rule_task_closure(m, rep, rid='R4', handler=False, parts=None):
     for e in emits:
         ct = norm(T.call_term(e))
         fp = field_path_of(strip_views(ct[2][0]))
-        r1 = bool(fp) and any(arc_inner(_capture_ty(b0, n_) or '') is not None for n_ in fp)
+        r1 = bool(fp) and any(arc_inner(_capture_ty(b0, n_) or _capture_ty(b, n_) or '') is not None for n_ in fp)
         t1 = is_whole_param(ct[2][1], 2) and not any(x[0] == 'call' and x[1].endswith('to_string') for x in walk(ct[2][1]))
         if not t1 and text_ok:
             rep.ob(rid, 'task-emits-same-text', False, b.where(e), 'the wrapped emit receives %s' % fmt(ct[2][1]))
